@@ -3,6 +3,10 @@
 // Exhaustive over all N^3 (resp. S^3) sequences. `threads [new-thread-first]`: the same table asked from different threads.   -DVF_HDR=... -DVF_E=... -DVF_ENAME=...
 #include VF_HDR
 
+#include <sys/wait.h>
+#include <unistd.h>
+
+#include <algorithm>
 #include <thread>
 
 #include "reflect.hpp"
@@ -78,7 +82,95 @@ static void threads(bool thread_first) {
   }
 }
 
+// Histories that start from a PRISTINE process: the reference is what a single call returns in a process that has made no
+// other lookup (one forked child per argument), and every ordered pair (a, b) - for ConsistentUnit every order of the unit
+// systems - is run as the first calls of its own forked child: a, b, a again. Order of first use must not matter.
+template <class F>
+static std::string in_child(const std::vector<size_t>& seq, F f) {
+  int fd[2];
+  if (pipe(fd) != 0) return "pipe failed";
+  const pid_t pid = fork();
+  if (pid == 0) {
+    close(fd[0]);
+    std::string out;
+    for (size_t i : seq) out += f(i) + "\n";
+    size_t off = 0;
+    while (off < out.size()) {
+      const ssize_t w = write(fd[1], out.data() + off, out.size() - off);
+      if (w <= 0) break;
+      off += (size_t)w;
+    }
+    _exit(0);
+  }
+  close(fd[1]);
+  std::string got;
+  char buf[4096];
+  ssize_t r;
+  while ((r = read(fd[0], buf, sizeof buf)) > 0) got.append(buf, (size_t)r);
+  close(fd[0]);
+  int status = 0;
+  waitpid(pid, &status, 0);
+  if (!WIFEXITED(status) || WEXITSTATUS(status) != 0) got += "<child ended abnormally>";
+  return got;
+}
+template <class F, class SHOW>
+static void fresh_histories(const char* fname, size_t n, F f, SHOW show, bool all_orders, size_t limit) {
+  std::vector<std::string> single(n);
+  for (size_t i = 0; i < n; i++) single[i] = in_child({i}, f);
+  long long bad = 0;
+  auto judge = [&](const std::vector<size_t>& seq) {
+    std::string want;
+    for (size_t i : seq) want += single[i];
+    vf::stat("fresh_process_histories");
+    vf::stat("histories");
+    vf::stat("transitions", (long long)seq.size());
+    if (in_child(seq, f) != want && !bad++) {
+      std::string h = "[";
+      for (size_t k = 0; k < seq.size(); k++) h += (k ? "," : "") + vf::jstr(show(seq[k]));
+      vf::viol(std::string("lookup-depends-on-first-use|") + VF_ENAME + "|" + fname, std::string("{\"function\":") + vf::jstr(fname) + ",\"first_calls_of_a_fresh_process\":" + h + "]}");
+    }
+  };
+  if (all_orders) {
+    std::vector<size_t> perm(n);
+    for (size_t i = 0; i < n; i++) perm[i] = i;
+    do {
+      std::vector<size_t> seq = perm;
+      seq.insert(seq.end(), perm.begin(), perm.end());  // every order of first use, then the same order again
+      judge(seq);
+    } while (std::next_permutation(perm.begin(), perm.end()));
+  }
+  const size_t m = n < limit ? n : limit;  // a prefix-and-suffix subset when the full square is too large for this tier
+  std::vector<size_t> pick;
+  for (size_t i = 0; i < n; i++)
+    if (n <= limit || i < m / 2 || i >= n - (m - m / 2)) pick.push_back(i);
+  for (size_t a : pick)
+    for (size_t b : pick)
+      if (a != b) judge({a, b, a});
+}
+
 int main(int argc, char** argv) {
+  if (argc > 1 && std::string(argv[1]) == "fresh") {
+    const bool th = std::getenv("VERIF_TIER") && std::string(std::getenv("VERIF_TIER")) == "thorough";
+    std::vector<E> us;
+    for (auto& e : vf::enumerators<E>()) us.push_back(e.value);
+    std::vector<PhQ::UnitSystem> ss;
+    for (auto& e : vf::enumerators<PhQ::UnitSystem>()) ss.push_back(e.value);
+    auto un = [&](size_t i) { return vf::enumerators<E>()[i].name; };
+    auto sn = [&](size_t i) { return vf::enumerators<PhQ::UnitSystem>()[i].name; };
+    const size_t lim = th ? 100000 : 12;
+    fresh_histories("ConsistentUnit", ss.size(), [&](size_t i) { return std::to_string((int)static_cast<int8_t>(PhQ::ConsistentUnit<E>(ss[i]))); }, sn, true, 100000);
+    fresh_histories("RelatedUnitSystem", us.size(), [&](size_t i) {
+      const auto r = PhQ::RelatedUnitSystem(us[i]);
+      return r.has_value() ? std::to_string((int)static_cast<int8_t>(r.value())) : std::string("-");
+    }, un, false, th ? 100000 : 40);
+    fresh_histories("Abbreviation", us.size(), [&](size_t i) { return std::string(PhQ::Abbreviation(us[i])); }, un, false, lim);
+    fresh_histories("ParseEnumeration(Abbreviation)", us.size(), [&](size_t i) {
+      const auto p = PhQ::ParseEnumeration<E>(PhQ::Abbreviation(us[i]));
+      return p.has_value() ? std::to_string((int)static_cast<int8_t>(p.value())) : std::string("-");
+    }, un, false, lim);
+    fresh_histories("Convert(1, u, standard)", us.size(), [&](size_t i) { return vf::hex(PhQ::Convert(1.0L, us[i], PhQ::Standard<E>)); }, un, false, lim);
+    return 0;
+  }
   if (argc > 1 && std::string(argv[1]) == "threads") {
     threads(argc > 2 && std::string(argv[2]) == "new-thread-first");
     return 0;
